@@ -50,6 +50,31 @@ HAND = [
 IONS = ['C[n+]1ccn(CC)c1.[Cl-]', 'C[n+]1ccn(C)c1', 'CCn1cc[n+](C)c1', 'CCCC[n+]1ccn(C)c1.F[B-](F)(F)F', 'C[n+]1cccn1CC', 'CN(C)C=[N+](C)CC',
         'C[N+](C)=CN(C)CC', 'c1cc[nH+]cc1', 'C[n+]1ccccc1', '[cH-]1cccc1.[cH-]1cccc1.[Fe+2]', 'CC(=[NH2+])N', 'NC(N)=[NH2+]', 'C[n+]1ccn(CC)c1C']
 
+# rings with an EVEN group of constitutionally equivalent labelled stereo elements (tetrahedrons, exocyclic double bonds, allenes): the
+# stereo-aware ranking (_chiral_morgan) cannot separate them by their environment and takes its `set new weights in half of the group`
+# branch (all three loops of it), which rewrites ranks it started from; the seeded generator below adds more of the same family
+RING_STEREO = ['C[C@H]1C[C@@H](C)C1', 'C[C@H]1C[C@H](C)C1', 'F[C@H]1[C@@H](Cl)[C@@H](F)[C@H]1Cl', 'C/C=C1/CC(=C/C)/C1', 'C/C=C1\\CC/C(=C/C)CC1',
+               'CC(F)=[C@]=C1CC(=[C@@]=C(C)F)C1', 'C[C@]12CC[C@](C)(CC1)CC2', 'O[C@H]1[C@H](O)[C@@H](O)[C@H](O)[C@@H](O)[C@@H]1O', 'C1C[C@H]2CC[C@@H]1CC2',
+               'C[C@H]1CC[C@@H](C)CC1.C[C@H]1C[C@@H](C)C1']
+
+
+def ring_stereo_family(rng, k):
+    """1,3-disubstituted cyclobutanes / 1,4-disubstituted cyclohexanes / 1,5-disubstituted cyclooctanes with two equal substituents and
+    every combination of stereo marks, exocyclic double bond pairs: the two centres are equivalent, the group is even"""
+    out = []
+    for _ in range(k):
+        x, xb = rng.choice([('C', 'C'), ('F', 'F'), ('Cl', 'Cl'), ('O', 'O'), ('N', 'N'), ('CC', 'CC'), ('Br', 'Br'), ('FC(F)(F)', 'C(F)(F)F'), ('CO', 'OC')])
+        a, b = rng.choice(['@', '@@']), rng.choice(['@', '@@'])
+        arm = 'C' * rng.choice([1, 2, 3])
+        if rng.random() < 0.75:
+            out.append(f'{x}[C{a}H]1{arm}[C{b}H]({xb}){arm}1')
+        else:
+            d1, d2, d3 = rng.choice(['/', '\\']), rng.choice(['/', '\\']), rng.choice(['/', '\\'])
+            y = rng.choice(['C', 'F', 'Cl'])
+            out.append(f'{y}/C=C1{d1}{arm}{d3}C(=C{d2}{y}){arm}1')
+    return out
+
+
 # aromatic N - metal chelates written with covalent bonds: kekule() rewrites the N-M bonds to coordinate bonds (order 8), which ring
 # perception ignores, so the chelate ring disappears and the kept ring caches must be dropped
 CHELATES = ['[Cu]1n2ccccc2-c2ccccn12', '[Pd]1n2ccccc2CCc2ccccn12', '[Ni]1n2ccccc2-c2ccccn12', '[Zn]1n2ccccc2C=Cc2ccccn12']
@@ -211,11 +236,52 @@ def observe_reads(m, env, order='forward'):
     add('pack(compressed=False)', lambda: m.pack(compressed=False))
     add('pack_len', lambda: env['MoleculeContainer'].pack_len(m.pack(compressed=False), compressed=False))
     add('unpack(pack)', lambda: env['MoleculeContainer'].unpack(m.pack()))
+    if order == 'plan':
+        return plan
     if order == 'backward':
         plan.reverse()
     elif order != 'forward':
         random.Random(order).shuffle(plan)
     return {name: safe(fn) for name, fn in plan}
+
+
+ISOLATED = ['str', 'atoms', 'bonds', 'linear_hash_set', 'morgan_hash_set', 'automorphisms', 'pack', '_fragments'] + ['fmt:' + f for f in FORMATS] + CACHED_ATTRS
+
+
+def isolated_reads(m, env, first, tag, intra):
+    """every observable evaluated ALONE on its own cache-free copy (nothing else was ever read on that object) must equal what the
+    forward pass returned for it after everything listed before it had been read (and what the backward / shuffled passes return with
+    everything else read before): a read must neither depend on nor CHANGE the value another read returns - in particular a body
+    that takes a cached value of another attribute as its working variable and updates it in place corrupts that attribute for
+    every later reader, which only shows against a value computed where the other body never ran.  Then, on the same copy, the
+    whole plan is read and the observable is read AGAIN: it must still have the value it had when it was alone."""
+    n_iso = 0
+    for name in ISOLATED:
+        if name not in first:
+            continue
+        c = m.copy()
+        plan = dict(observe_reads(c, env, 'plan'))
+        alone = safe(plan[name])
+        n_iso += 1
+        if alone != first[name]:
+            intra.append({'input': tag, 'observable': name, 'variant': 'read alone on a cache-free copy (nothing else read before)', 'first': alone[:600], 'other': first[name][:600]})
+            continue
+        if name in PURITY:
+            for other in PURITY_READS:
+                if other != name and other in plan:
+                    safe(plan[other])
+            again = safe(plan[name])
+            if again != alone:
+                intra.append({'input': tag, 'observable': name, 'variant': 'read again after the other attributes were read on the same object', 'first': alone[:600], 'other': again[:600]})
+    return n_iso
+
+
+# attributes whose value other bodies take as their starting point (ranks, rings, components, stereo tables): read alone, then after
+# every reader below ran on the same object
+PURITY = ['atoms_order', '_chiral_morgan', 'sssr', 'atoms_rings', 'connected_components', 'int_adjacency', 'tetrahedrons', 'cumulenes', 'stereogenic_tetrahedrons',
+          'not_special_connectivity', 'fmt:!s', 'smiles_atoms_order', '_stereo_cis_trans_terminals', 'ring_tetrahedrons']
+PURITY_READS = ['str', 'fmt:!s', 'fmt:h', 'smiles_atoms_order', '_chiral_morgan', 'chiral_tetrahedrons', 'chiral_cis_trans', 'chiral_allenes', 'automorphisms', 'aromatic_rings',
+                'atoms_rings_sizes', 'rings_count', 'linear_hash_set', 'morgan_hash_set', 'pack', 'stereogenic_cis_trans', 'stereogenic_allenes', 'skin_graph', 'rings_graph']
 
 
 def observe_ops(m, env):
@@ -457,6 +523,65 @@ def coq_terms(m):
     return t
 
 
+def alias_trace(m):
+    """intermediate states of MoleculeStereo._chiral_morgan on a cache-free copy: a line tracer on the frame of that function records the
+    identity and the content of the working variable `morgan` (and the three group lists) after every executed line.  Returned: whether
+    the variable started as a COPY of the cached atoms_order (object identity), the steps (a new object / the same object updated in
+    place, with the atoms whose rank the in-place loops negate as read from the group lists), atoms_order before and after, the result."""
+    c = m.copy()
+    ao_before = list(c.atoms_order.items())
+    ao_id = id(c.atoms_order)
+    code = type(c)._chiral_morgan.func.__code__ if hasattr(type(c)._chiral_morgan, 'func') else None
+    if code is None:
+        for klass in type(c).__mro__:
+            d = klass.__dict__.get('_chiral_morgan')
+            if d is not None:
+                code = getattr(d, 'func', getattr(d, 'fget', None)).__code__
+                break
+    events = []
+
+    def local(frame, event, arg):
+        if event in ('line', 'return'):
+            lc = frame.f_locals
+            w = lc.get('morgan')
+            if w is not None:
+                # the three group lists as they are (which members are negated is the model's business: the translated loops)
+                neg = [[list(g) for g in lc.get('atoms_groups') or ()], [[[p[0], list(p[1])] for p in g] for g in lc.get('cis_trans_groups') or ()],
+                       [list(g) for g in lc.get('allenes_groups') or ()]]
+                events.append((id(w), list(w.items()), neg))
+        return local
+
+    def glob(frame, event, arg):
+        return local if frame.f_code is code else None
+    sys.settrace(glob)
+    try:
+        cm = list(c._chiral_morgan.items())
+    finally:
+        sys.settrace(None)
+    ao_after = list(c.atoms_order.items())
+    if not events:
+        return {'stereo': False, 'ao': ao_before, 'cm': cm, 'ao_after': ao_after, 'steps': [], 'copied': None}
+    copied = events[0][0] != ao_id
+    steps = []
+    cur_id, cur = events[0][0], events[0][1]
+    if cur != ao_before:
+        steps.append(('new', False, cur))          # never expected: the start value is atoms_order
+    pending = None          # an in-place update in progress: (atoms negated, content)
+    for wid, content, neg in events[1:]:
+        if wid != cur_id:
+            if pending:
+                steps.append(pending)
+                pending = None
+            steps.append(('new', False, content))
+            cur_id, cur = wid, content
+        elif content != cur:
+            pending = ('neg', neg, content)          # same object, other content: the in-place loops (all three) until the next rebinding
+            cur = content
+    if pending:
+        steps.append(pending)
+    return {'stereo': True, 'ao': ao_before, 'cm': cm, 'ao_after': ao_after, 'steps': steps, 'copied': copied, 'lines': len(events)}
+
+
 # ---- insertion histories and pickles (extension round, goal 3) ----------------------------------------------------
 
 def reordered(m, rng, inner):
@@ -649,7 +774,7 @@ def worker(spec_path, out_path):
             env['queries'].append((s, None))
             notes.append(f'smarts {s}: {type(e).__name__}')
     env['fragments'] = [(s, smiles(s)) for s in spec['fragments']]
-    obs, intra, terms = {}, [], {}
+    obs, intra, terms, alias = {}, [], {}, {}
     for idx, (tag, smi) in enumerate(spec['molecules']):
         def parse():
             m = smiles(smi)
@@ -679,6 +804,8 @@ def worker(spec_path, out_path):
                 except Exception:
                     pass
             continue
+        if len(m._atoms) <= 40:
+            isolated_reads(m, env, first, tag, intra)
         second = observe_reads(m, env, 'backward')          # every cached value is now read from the cache
         compare_variants(tag, first, second, 'second call (cached, after operations on copies)', intra)
         if idx % 3 == 1 or tag.startswith('hand'):
@@ -705,6 +832,11 @@ def worker(spec_path, out_path):
                 terms[tag] = coq_terms(m)
             except Exception as e:
                 terms[tag] = {'error': f'{type(e).__name__}: {e}'}
+        if tag in spec.get('alias_inputs', ()):
+            try:
+                alias[tag] = alias_trace(m)
+            except Exception as e:
+                alias[tag] = {'error': f'{type(e).__name__}: {e}'}
     for tag, smi in spec['reactions']:
         try:
             r = smiles(smi)
@@ -754,7 +886,7 @@ def worker(spec_path, out_path):
         import gen_setaudit
         executed = {'set': [[list(k), v] for k, v in sorted(gen_setaudit.EXECUTED.items())],
                     'non_set': [[list(k), v] for k, v in sorted(gen_setaudit.SEEN_NON_SET.items())]}
-    json.dump({'obs': obs, 'intra': intra, 'terms': terms, 'notes': notes, 'cython': cython, 'hashseed': os.environ.get('PYTHONHASHSEED'), 'executed': executed,
+    json.dump({'obs': obs, 'intra': intra, 'terms': terms, 'alias': alias, 'notes': notes, 'cython': cython, 'hashseed': os.environ.get('PYTHONHASHSEED'), 'executed': executed,
                'str_hash_probe': hash('chython') & 0xffff, 'wall': round(time.time() - t0, 1)}, open(out_path, 'w'))
 
 
@@ -837,6 +969,17 @@ def obs_code(kind, smi, name):
     return pre + m + f'print(str(m))  # observable {name!r}: see harness/checks/C19.py observe_reads/observe_ops'
 
 
+def iso_code(smi, name):
+    """replay of an `isolated` / `impure-read` difference: the observable alone on a cache-free copy, then again after the other readers ran"""
+    expr = 'str(x)' if name == 'str' else f'format(x, {name[4:]!r})' if name.startswith('fmt:') else f'x.{name}' if name in CACHED_ATTRS else \
+        f'sorted(x.{name}())' if name in ('linear_hash_set', 'morgan_hash_set') else 'x.pack().hex()' if name == 'pack' else 'str(x)'
+    return ('import boot\nfrom chython import smiles\n' + f'm = smiles({smi!r})\n' + f'f = lambda x: {expr}\n' +
+            'a = m.copy(); alone = repr(f(a)); print("alone on a fresh copy :", alone)\n'
+            'b = m.copy(); str(b); b._chiral_morgan; b.sssr; b.atoms_order; format(b, "!s"); later = repr(f(b)); print("after other reads    :", later)\n'
+            'again = repr(f(a)) if (str(a), a._chiral_morgan, format(a, "!s"), a.sssr) else None; print("first object, again  :", again)\n'
+            'print("IDENTICAL" if alone == later == again else "DIFFERENT")\n')
+
+
 def build_spec(ck):
     quick = ck.tier == 'quick'
     rng = random.Random(f'{ck.seed}:c19')
@@ -849,6 +992,8 @@ def build_spec(ck):
     for s in CHELATES:
         mols.append(('hand:' + s, s))
         mols.append(('ion:' + s, s))
+    for s in dict.fromkeys(RING_STEREO + ring_stereo_family(random.Random(f'{ck.seed}:c19ringstereo'), 6 if quick else 40)):
+        mols.append(('hand:' + s, s))
     pool = corpus.sample(corpus.lipo(), 24 if quick else 500, ck.seed, 'c19')
     for s in pool:
         mols.append(('corpus:' + s, s))
@@ -866,7 +1011,10 @@ def build_spec(ck):
     test_dir = os.path.join(common.REPO, 'test')
     sdf = sorted(os.path.join(test_dir, f) for f in os.listdir(test_dir) if f.endswith('.sdf'))[: (3 if quick else 8)] if os.path.isdir(test_dir) else []
     history_inputs = [tg for tg, s in mols if tg.startswith('hand:')][::3][: (25 if quick else 80)] + [tg for tg, s in mols if tg.startswith('corpus:')][: (3 if quick else 60)]
-    return {'repo': common.REPO, 'history_inputs': history_inputs, 'molecules': mols, 'reactions': [('rxn:' + s, s) for s in REACTIONS], 'smarts': SMARTS,
+    # inputs of the _chiral_morgan trace (working variable, in-place steps): every hand-made / generated input with a stereo mark, some corpus ones
+    alias_inputs = [tg for tg, s in mols if tg.startswith('hand:') and any(c in s for c in '@/\\')] + \
+        [tg for tg, s in mols if tg.startswith('corpus:') and any(c in s for c in '@/\\')][: (6 if quick else 80)]
+    return {'repo': common.REPO, 'alias_inputs': alias_inputs, 'history_inputs': history_inputs, 'molecules': mols, 'reactions': [('rxn:' + s, s) for s in REACTIONS], 'smarts': SMARTS,
             'fragments': FRAGMENTS, 'reactor': REACTOR, 'model_inputs': model_inputs, 'sdf': sdf, 'sdf_limit': 10 if quick else 40, 'reparse': True}
 
 
@@ -898,7 +1046,7 @@ def run_workers(ck, spec, seeds, instrument=()):
     running = []
     deadline = time.time() + (900 if ck.tier == 'quick' else 6000)
     while pending or running:
-        while pending and len(running) < 4:
+        while pending and len(running) < 5:
             i, seed = pending.pop(0)
             running.append(launch(i, seed))
         for r in list(running):
@@ -1046,11 +1194,12 @@ def differential(ck, spec, results, label=''):
             smi = smi_of.get(d['input'], d['input'])
             vkey = {'second call (cached, after operations on copies)': 'cached', 'second call (cached)': 'cached', 'after flush_cache': 'flushed',
                     'after flush_cache (read in reverse order)': 'flushed', 'copy() (read in shuffled order)': 'copy',
+                    'read alone on a cache-free copy (nothing else read before)': 'isolated', 'read again after the other attributes were read on the same object': 'impure-read',
                     'copy()': 'copy', 're-parsed object': 'reparsed', 'ops on copy()': 'copy-ops', 'fresh copy after the edit': 'stale', 'fresh copy of the object after the in-place operation': 'stale-after-op', 'that attribute read first on a fresh copy': 'first-read'}.get(d['variant'], d['variant'])
             ck.counterexample(f'{vkey}:{family(d["observable"])}', f'{d["observable"]} of {smi!r}: first call differs from {d["variant"]}',
                               {'input': smi, 'observable': d['observable'], 'variant': d['variant'], 'PYTHONHASHSEED': seed},
                               d['other'], d['first'], 'first (uncached) evaluation of the same object',
-                              replay_py=obs_code('molecule', smi, d['observable']))
+                              replay_py=iso_code(smi, d['observable']) if vkey in ('isolated', 'impure-read') else obs_code('molecule', smi, d['observable']))
     ck.extra['differential' if not label else 'differential_directed'] = {'processes': len(good), 'seeds': [s for _, s, _ in good], 'inputs': len(base['obs']),
                                 'observables_per_process': sum(len(o) for o in base['obs'].values()),
                                 'pairwise_comparisons': n_cmp, 'differences': n_diff, 'intra_process_differences': n_intra,
@@ -1133,18 +1282,21 @@ def memo_cases(ck, rng):
     """histories of reads / flushes / edits on REAL molecules against the memo model: derive k s is the value a fresh,
     never cached copy returns; the model must return the same list of values for the same history"""
     from chython import smiles
-    props = ['atoms_order', 'sssr', 'rings_count', 'bonds_count', 'connected_components_count', 'atoms_count', 'str_len', 'smiles_atoms_order']
+    props = ['atoms_order', 'sssr', 'rings_count', 'bonds_count', 'connected_components_count', 'atoms_count', 'str_len', 'smiles_atoms_order',
+             '_chiral_morgan', 'fmt:!s']          # the last two: the stereo-aware ranks (they START from atoms_order) and the stereo-less string
 
     def value(m, k):
         if k == 'str_len':
             return len(str(m))
+        if k.startswith('fmt:'):
+            return int.from_bytes(hashlib.blake2b(format(m, k[4:]).encode(), digest_size=4).digest(), 'big')
         v = getattr(m, k)
         if isinstance(v, int):
             return v
         return int.from_bytes(hashlib.blake2b(ser(v).encode(), digest_size=4).digest(), 'big')   # an int code of the value
     cases, meta = [], []
     for smi in ['c1ccccc1C', 'C1CC1C1CCCCC1', 'CC(=O)O.[Na+]', 'C[C@H](N)C(=O)O', 'C12C3C4C1C5C2C3C45', 'C[n+]1ccn(CC)c1.[Cl-]', 'CCn1cc[n+](C)c1',
-                'CC(=O)[O-].C[NH3+]'] + CHELATES[:2]:
+                'CC(=O)[O-].C[NH3+]'] + CHELATES[:2] + RING_STEREO[:6] + ring_stereo_family(rng, 2 if ck.tier == 'quick' else 12):
         for h in range(6 if ck.tier == 'quick' else 30):
             m = smiles(smi)
             # states: 0 = as parsed, then one more per edit; the table `derive` lists, per state, the uncached value of every key
@@ -1377,6 +1529,67 @@ Definition memo_ok (tab : list (list Z)) (ops : list (@op nat nat)) (observed : 
 '''
 
 
+ALIAS_EXTRA = '''From Coq Require Import String.
+From Model Require Import Determinism DeterminismAlias.
+From Gen Require Import CacheAlias.
+Import ListNotations.
+Open Scope list_scope.
+Open Scope Z_scope.
+Definition zz_eqb := list_eqb (fun a b : Z * Z => (fst a =? fst b) && (snd a =? snd b)).
+(* observed steps of _chiral_morgan: the in-place loops (atoms whose rank is negated, content of the SAME object afterwards) / a new object *)
+Inductive sd := SNeg (ag : list (list Z)) (cg : list (list (Z * (Z * Z)))) (lg : list (list Z)) (expect : list (Z * Z)) | SNew (d : list (Z * Z)).
+Definition to_step (x : sd) : @step unit (list (Z * Z)) :=
+  match x with SNeg ag cg lg _ => InPlace (fun _ w => chiral_inplace ag cg lg w) | SNew d => Rebind (fun _ _ => false) (fun _ _ => d) end.
+(* intermediate states: the TRANSLATED in-place loops applied to the state before give the observed content (and equal the hand-written step) *)
+Fixpoint inter_ok (w : list (Z * Z)) (xs : list sd) : bool :=
+  match xs with
+  | [] => true
+  | SNeg ag cg lg e :: r => zz_eqb (chiral_inplace ag cg lg w) e && zz_eqb (negate_seq (halves ag ++ map fst (halves cg) ++ halves lg) w) e && inter_ok e r
+  | SNew d :: r => inter_ok d r
+  end.
+(* the start mode is NOT an argument: it is the regenerated Gen.CacheAlias.chiral_morgan_start; `copied` is what the object identities showed *)
+Definition al_ok (copied : bool) (ao : list (Z * Z)) (xs : list sd) (cm ao_after : list (Z * Z)) : bool :=
+  let base := fun (k : string) (_ : unit) => if String.eqb k "atoms_order" then ao else [] in
+  let sp := chiral_spec chiral_morgan_start (map to_step xs) in
+  Bool.eqb copied (snd chiral_morgan_start) && inter_ok ao xs &&
+  list_eqb zz_eqb (run_alias String.eqb base sp tt [] [ARead "atoms_order"%string; ARead chiral_key; ARead "atoms_order"%string; ARead chiral_key]) [ao; cm; ao_after; cm].
+'''
+
+
+def alias_cases(ck, spec, good):
+    """the _chiral_morgan trace of every worker process against Model.DeterminismAlias run with the REGENERATED start mode"""
+    zz = lambda d: lst([tup(zraw(k), zraw(v)) for k, v in d])
+    cases, meta = [], []
+    for tag in spec.get('alias_inputs', ()):
+        seen = set()
+        for _, seed, res in good:
+            t = res.get('alias', {}).get(tag)
+            if not t or 'error' in t:
+                ck.count('alias trace skipped (worker could not produce it)')
+                continue
+            sig = json.dumps(t, sort_keys=True)
+            if sig in seen:
+                continue
+            seen.add(sig)
+            if not t['stereo']:
+                ck.count('alias trace: no stereo label, _chiral_morgan returns atoms_order itself')
+                continue
+            steps = []
+            for st in t['steps']:
+                if st[0] == 'neg':
+                    ag, cg, lg = st[1]
+                    steps.append('SNeg %s %s %s %s' % (lst([lst(g, zraw) for g in ag]), lst([lst([tup(zraw(a), tup(zraw(b_[0]), zraw(b_[1]))) for a, b_ in g]) for g in cg]),
+                                                         lst([lst(g, zraw) for g in lg]), zz(st[2])))
+                else:
+                    steps.append(f'SNew {zz(st[2])}')
+            cases.append(f'al_ok {cb(t["copied"])} {zz(t["ao"])} [{"; ".join(steps)}] {zz(t["cm"])} {zz(t["ao_after"])}')
+            meta.append((tag, seed, [st[0] for st in t['steps']]))
+            inplace = any(st[0] == 'neg' for st in t['steps'])
+            ck.case(('alias', tag, seed), nontrivial=inplace)
+            ck.count('alias traces with an in-place step (half of an even group negated)' if inplace else 'alias traces without in-place step')
+    return cases, meta
+
+
 def correspondence(ck, spec, results):
     good = [(i, seed, res) for i, seed, res, log in results if res is not None]
     if not good:
@@ -1446,6 +1659,16 @@ def correspondence(ck, spec, results):
               f'({len(rc)} cases)', good4, 'correspondence', log4 or repr([rm[i] for i in failing4[:4]]))
     if not good4:
         ck.unchecked('correspondence _connected_rings merge step (guard / scissors / merged ring) vs chython/algorithms/rings.py', log4[-1500:], [repr(rm[i]) for i in failing4[:20]])
+    ac, am = alias_cases(ck, spec, good)
+    ok5, failing5, log5 = coqcases.run_cases('c19a', 'PyBase', ac, extra=ALIAS_EXTRA, shard=200)
+    good5 = ok5 and not failing5 and bool(ac)
+    ck.oblige(f'correspondence (intermediate states of MoleculeStereo._chiral_morgan, line tracer on its frame): the working variable starts as a copy of the '
+              f'cached atoms_order exactly when the regenerated start mode says so, every in-place step (ranks of half of each group negated) == model step, '
+              f'atoms_order before / _chiral_morgan / atoms_order after / _chiral_morgan again == Model.DeterminismAlias with the regenerated start mode '
+              f'({len(ac)} traces)', good5, 'correspondence', log5 or repr([am[i] for i in failing5[:4]]))
+    if not good5:
+        ck.unchecked('correspondence _chiral_morgan working variable (copy / in-place steps / cache entry of atoms_order) vs chython/algorithms/stereo.py', log5[-1500:],
+                     [repr(am[i]) for i in failing5[:20]])
     kc, km = memo_keep_cases(ck, rng)
     ok3, failing3, log3 = coqcases.run_cases('c19k', 'Determinism', kc, extra='Import ListNotations.\nOpen Scope list_scope.\nOpen Scope Z_scope.' + MEMO_KEEP_EXTRA, shard=400)
     good3 = ok3 and not failing3
@@ -1459,7 +1682,7 @@ def correspondence(ck, spec, results):
                               {'smiles': smi, 'history': ops_}, observed_, 'values of never-cached copies / kept values of the state before', 'uncached evaluation on a fresh copy')
         if not failing3:
             ck.unchecked('correspondence partial-flush memo model', log3[-1500:])
-    ck.extra['correspondence_cases'] = len(cases) + len(mc) + len(kc) + len(rc)
+    ck.extra['correspondence_cases'] = len(cases) + len(mc) + len(kc) + len(rc) + len(ac)
     good1 = ok1 and not failing1
     good2 = ok2 and not failing2
     ck.oblige(f'correspondence: atoms_order / linear_hash_set / morgan_hash_set / _fragments dict / ring-size masks / weight groups / start atom of every worker '
@@ -1490,7 +1713,7 @@ def correspondence(ck, spec, results):
                               {'smiles': smi, 'history': ops}, observed, 'values of never-cached copies', 'uncached evaluation on a fresh copy')
         if not failing2:
             ck.unchecked('correspondence memo model', log2[-1500:])
-    return good1 and good2 and good3 and good4
+    return good1 and good2 and good3 and good4 and good5
 
 
 def runtime_audit(ck, spec, results, inst):
@@ -1595,7 +1818,7 @@ def run(ck):
                         'call / cached call / after flush / copy / re-parsed. A case = one (input, observable); non-trivial = it returned a value')
     phases = {}
     t0 = time.time()
-    proved = common.standard_proof_steps(ck, translators=['setaudit', 'cachekeys'])
+    proved = common.standard_proof_steps(ck, translators=['setaudit', 'cachekeys', 'cachealias'])
     phases['proof steps (incl. waiting for the shared coq lock)'] = round(time.time() - t0, 1)
     audit_report(ck)
     spec = build_spec(ck)
